@@ -282,7 +282,18 @@ func (this *partition) proposeAddNode(ctx context.Context, nodeId uint64) error 
 		return err
 	}
 
-	return this.raft.ProposeJoin(nodeId, "")
+	group := this.loadedRaft()
+	if group == nil {
+		return RaftNotLoadedOnNodeErr
+	}
+	return group.ProposeJoin(nodeId, "")
+}
+
+func (this *partition) loadedRaft() *raft.RaftGroup {
+	this.raftMu.RLock()
+	defer this.raftMu.RUnlock()
+
+	return this.raft
 }
 
 func (this *partition) addNode(nodeId uint64) {
@@ -298,7 +309,11 @@ func (this *partition) proposeRemoveNode(ctx context.Context, nodeId uint64) err
 		return err
 	}
 
-	return this.raft.ProposeLeave(nodeId)
+	group := this.loadedRaft()
+	if group == nil {
+		return RaftNotLoadedOnNodeErr
+	}
+	return group.ProposeLeave(nodeId)
 }
 
 func (this *partition) removeNode(nodeId uint64) {
